@@ -253,7 +253,7 @@ func checkC01(p *core.Program, r *core.Report) {
 	const R2 = "C01.R2 setup-gate"
 	const R3 = "C01.R3 data-gate"
 	const R4 = "C01.R4 hub-trust-writers"
-	r.Explanation = "C01 (trust gate): decided as an inductive invariant over the automaton extracted from package ship (all entries x all 40 states x both roles, every write may fail): (R1) every transition from a pre-trust state into a post-trust state (ready*, hello-ok, protocol, pin, access, approved, complete) is taken on a path that passed the positive edge of a trust predicate (IsRemoteServiceForSKIPaired(remoteSKI), IsAutoAcceptEnabled(), role == client), or is the PendingListen->ReadyInit step of the user-approval entry; so 'state is post-trust' implies 'trust was granted', whatever message/timeout/error sequence the peer causes; (R2) the remote-device setup callback is only reachable in state Approved; (R3) the SPINE reader is written only with the result of that callback, payloads are delivered only through that field and only when it is set; (R4) in package hub trust is set only by RegisterRemoteSKI or on a hello-ok state report, the trust predicates return exactly the stored flags, and ApprovePendingHandshake is called only from RegisterRemoteSKI. Not decided: the application's own AllowWaitingForTrust / UI logic."
+	r.Explanation = "C01 (trust gate): decided as an inductive invariant over the automaton extracted from package ship (all entries x all 40 states x both roles, every write may fail): (R1) every transition from a pre-trust state into a post-trust state (ready*, hello-ok, protocol, pin, access, approved, complete) is taken on a path that passed the positive edge of a trust predicate (IsRemoteServiceForSKIPaired(remoteSKI), IsAutoAcceptEnabled(), role == client), or is the PendingListen->ReadyInit step of the user-approval entry; so 'state is post-trust' implies 'trust was granted', whatever message/timeout/error sequence the peer causes; (R2) the remote-device setup callback is only reachable in state Approved; (R3) the SPINE reader is written only with the result of that callback, payloads are delivered only through that field and only when it is set; (R4) in package hub trust is set only by RegisterRemoteSKI or on a hello-ok state report, the trust predicates return exactly the stored flags, and ApprovePendingHandshake is called only from RegisterRemoteSKI; (R5) a user cancel reaches the connection: the abort entry takes both waiting states to a terminal state on every path, and cancel/unregister find the live connection under every spelling of the SKI. Not decided: the application's own AllowWaitingForTrust / UI logic."
 	r.Rule(R1, "every extracted edge s->K with s pre-trust, K post-trust is on a trusted path, or is PendingListen->ReadyInit in the approve entry")
 	r.Rule(R2, "SetupRemoteDevice is invoked only at state Approved")
 	r.Rule(R3, "dataReader is stored only from SetupRemoteDevice's result at state Approved; HandleShipPayloadMessage is invoked only on that field and only when it is set")
@@ -343,6 +343,13 @@ func checkC01(p *core.Program, r *core.Report) {
 	r.Floor(R2, 1)
 	r.Floor(R3, 3)
 	checkHubTrust(p, r, R4)
+	// R5: cancelling / unregistering acts on the live connection, so the handshake cannot complete later
+	const R5 = "C01.R5 cancel-reaches-the-connection"
+	r.Rule(R5, "the abort entry ends terminal from both waiting states (ship automaton); CancelPairingWithSKI / UnregisterRemoteSKI look the connection up under the normalised SKI (taint rule of C15 restricted to them)")
+	checkAbortEntry(p, r, R5)
+	if n := checkSKINormalised(p, r, R5, map[string]bool{"UnregisterRemoteSKI": true, "CancelPairingWithSKI": true}); n < 2 {
+		r.Fail(R5, "entries", "", "CancelPairingWithSKI / UnregisterRemoteSKI not found")
+	}
 }
 
 // fsmTerminalRules: (R3) timer stopped when a path enters a terminal or the
